@@ -459,6 +459,11 @@ pub fn wide_prelude(th: &Theory, b: &Bounds) -> Option<Vec<Op>> {
     if th.types.iter().any(|t| matches!(t.kind, TypeKind::Model | TypeKind::Mor) || t.member_of.is_some()) { return None; }
     let n = th.meta.get("wide_prelude").and_then(|x| x.as_u64()).unwrap_or(4) as usize;
     if n <= b.prelude_elems || n == 0 { return None; }
+    // only where the tuple space over n elements stays small (menus, point queries over all tuples of ids)
+    let listed = |key: &str, name: &str| th.meta.get(key).and_then(|v| v.as_array()).map(|a| a.iter().any(|x| x.as_str() == Some(name)));
+    let space: u64 = th.rels.iter().filter(|r| listed("menu_rels", &r.name).unwrap_or(true) && !listed("no_insert", &r.name).unwrap_or(false))
+        .map(|r| (n as u64).pow(r.arity.len() as u32)).sum();
+    if space > 200 || th.rels.iter().any(|r| r.arity.len() > 3) { return None; }
     let mut p = Vec::new();
     for (ti, t) in th.types.iter().enumerate() {
         if t.kind == TypeKind::Enum { continue; }
